@@ -268,6 +268,11 @@ def _unit(args):
                     ob.id = f"{wname}::{ob.id}"
             for ob in obs[chunk::nchunks]:
                 r = smt.solve_formula(w, ob.hyps, ob.goal, timeout)
+                if r[0] == "unknown" and "timeout" in (r[4] or ""):
+                    # a budget that is ample on an idle machine can run out when all cores are busy (other checks, test runs): one retry with three times
+                    # the budget before the obligation is called undecided; the time of both attempts is reported
+                    r2 = smt.solve_formula(w, ob.hyps, ob.goal, 3 * timeout)
+                    r = (r2[0], r2[1] + "(retry)", r[2] + r2[2], r2[3], r2[4])
                 ob.verdict, ob.solver, ob.seconds, ob.model, ob.reason = r
                 out["records"].append(_classify(w, prop.id, ob, known, timeout))
         elif kind == "lemmas":
